@@ -232,12 +232,15 @@ pub proof fn lemma_link_expected(max: int, t: Transfer, p: Seq<u8>)
 
 //@@ fn file=fe2o3-amqp/src/link/sender_link.rs name=send_transfer
 //@@ param writer : &mut ChanSender<LinkFrame>
-//@@ subst `|_v0|` => `|_v0: ChanSendError|` rule=optional-R5
+//@@ subst `.map_err(|_v0| __E1)` => `.map_err(|_v0: ChanSendError| -> (o: LinkStateError) ensures o == link_stop_err(session_stop_reason.val()) { __E1 })` rule=R18
 //@@ spec
     ensures
         r is Ok ==> final(writer).sent@ == old(writer).sent@.push(LinkFrame::Transfer { input_handle, performative: transfer, payload }),   // [C01.link.send-frame] the frame queued is the performative and payload given
         r is Err ==> final(writer).sent@ == old(writer).sent@,
+        r is Err ==> r == Err::<(), LinkStateError>(link_stop_err(session_stop_reason.val())),   // [C14.link.closed-channel-reports-stop-reason] a transfer that cannot be queued because the session is gone fails with SessionStopped(reason), the reason being what the session published before closing the channel (the peer's End / Close with its error, or the connection's fate); IllegalState only if none was recorded
 //@@ end
+
+pub open spec fn link_stop_err(stop: Option<SessionStopReason>) -> LinkStateError { match stop { Some(r) => LinkStateError::SessionStopped(r), None => LinkStateError::IllegalState } }
 
 /// `send_transfer(...).await` seen as a cancellation point: the send pends while the bounded link->session channel is full, and the caller's future may be
 /// dropped there. `inside` says whether frames of the delivery being sent have already been queued by this call.
